@@ -68,7 +68,7 @@ def run(R):
                       'enters the model as a positive parameter',
                       'lists in the theorems hold the finite log-likelihoods; -inf samples are represented by their absence '
                       'while n_samples counts them (checked on the implementation by the correspondence run)',
-                      'the two-PDF divergence dkl() is covered by the oracle only (zero for identical inputs, non-negative)']
+                      'the two-PDF divergence dkl(p, q) is not regenerated (two arrays walked element by element): its theorems (non-negative, zero for identical inputs) are about the definition sum p ln(p/q) dV, with which the implementation is compared at 40 digits by the oracle, including +inf where q vanishes and p does not']
     defs = R.defs(gen.gen_evidence)
     bad = None
     n = R.n(400, 15000)
